@@ -2,6 +2,7 @@ package main
 
 import (
 	"fmt"
+	"go/token"
 	"go/types"
 	"sort"
 	"strings"
@@ -190,7 +191,14 @@ func (m *envModel) mapUses(mv ssa.Value, base ssa.Value, field int, seen map[ssa
 					out = append(out, tableAccess{x, base, field, true, "builtin " + bi.Name()})
 				}
 			} else {
-				out = append(out, tableAccess{x, base, field, true, "table passed to a call"})
+				// a helper of the same package that only reads (or only reads and writes) the table it is handed works on the
+				// table under the caller's lock: the call is one read (write) access. A helper that lets the table out - returns
+				// it, stores it, passes it on to code outside the package - is reported as before.
+				if what, write, ok := m.helperUse(x, mv, 0); ok {
+					out = append(out, tableAccess{x, base, field, write, what})
+				} else {
+					out = append(out, tableAccess{x, base, field, true, "table passed to a call"})
+				}
 			}
 		case *ssa.BinOp: // comparison with nil
 			out = append(out, tableAccess{x, base, field, false, "nil test"})
@@ -203,6 +211,145 @@ func (m *envModel) mapUses(mv ssa.Value, base ssa.Value, field int, seen map[ssa
 		}
 	}
 	return out
+}
+
+// helperUse summarises what a function of the analysed package does with the table passed to it as an argument.
+func (m *envModel) helperUse(c *ssa.Call, mv ssa.Value, depth int) (what string, write bool, ok bool) {
+	callee := staticCallee(c)
+	if callee == nil || len(callee.Blocks) == 0 || callee.Pkg != c.Parent().Pkg || depth > 2 {
+		return "", false, false
+	}
+	kinds := map[string]bool{}
+	for i, a := range c.Call.Args {
+		if a != mv || i >= len(callee.Params) {
+			continue
+		}
+		var walk func(v ssa.Value, seen map[ssa.Value]bool) bool
+		walk = func(v ssa.Value, seen map[ssa.Value]bool) bool {
+			if seen[v] {
+				return true
+			}
+			seen[v] = true
+			if v.Referrers() == nil {
+				return true
+			}
+			for _, ref := range *v.Referrers() {
+				switch x := ref.(type) {
+				case *ssa.DebugRef:
+				case *ssa.Lookup:
+					kinds["lookup"] = true
+				case *ssa.MapUpdate:
+					if x.Map != v {
+						return false // the table stored as a value
+					}
+					kinds["map update"] = true
+					write = true
+				case *ssa.Range:
+					kinds["range"] = true
+				case *ssa.BinOp:
+					kinds["nil test"] = true
+				case *ssa.Phi:
+					if !walk(x, seen) {
+						return false
+					}
+				case *ssa.Call:
+					if bi, isB := x.Call.Value.(*ssa.Builtin); isB {
+						switch bi.Name() {
+						case "len":
+							kinds["len"] = true
+						case "delete":
+							kinds["delete"] = true
+							write = true
+						default:
+							return false
+						}
+						continue
+					}
+					w2, wr2, ok2 := m.helperUse(x, v, depth+1)
+					if !ok2 {
+						return false
+					}
+					kinds[w2] = true
+					write = write || wr2
+				case *ssa.Return:
+					if !knownNilIn(x.Block(), v) {
+						return false // the table itself is handed back
+					}
+				default:
+					return false // returned, stored, boxed, ...: the table gets out
+				}
+			}
+			return true
+		}
+		if !walk(callee.Params[i], map[ssa.Value]bool{}) {
+			return "", false, false
+		}
+	}
+	var ks []string
+	for k := range kinds {
+		ks = append(ks, k)
+	}
+	sort.Strings(ks)
+	return "used by helper " + callee.Name() + " (" + strings.Join(ks, ", ") + ")", write, true
+}
+
+// knownNilIn: block b is entered only through the nil side of a test `v == nil` (so v is nil throughout b).
+func knownNilIn(b *ssa.BasicBlock, v ssa.Value) bool {
+	if len(b.Preds) != 1 {
+		return false
+	}
+	pr := b.Preds[0]
+	iff, ok := pr.Instrs[len(pr.Instrs)-1].(*ssa.If)
+	if !ok || pr.Succs[0] == pr.Succs[1] {
+		return false
+	}
+	bo, ok := iff.Cond.(*ssa.BinOp)
+	if !ok || bo.X != v || !isNilConst(bo.Y) {
+		return false
+	}
+	return (bo.Op == token.EQL && pr.Succs[0] == b) || (bo.Op == token.NEQ && pr.Succs[1] == b)
+}
+
+// returnsFreshMap: every result the function returns is a map made in it (or nil).
+func returnsFreshMap(fn *ssa.Function) bool {
+	if fn == nil || len(fn.Blocks) == 0 {
+		return false
+	}
+	n := 0
+	var fresh func(v ssa.Value, seen map[ssa.Value]bool) bool
+	fresh = func(v ssa.Value, seen map[ssa.Value]bool) bool {
+		if seen[v] {
+			return true
+		}
+		seen[v] = true
+		switch x := v.(type) {
+		case *ssa.MakeMap:
+			return true
+		case *ssa.Const:
+			return x.Value == nil
+		case *ssa.Phi:
+			for _, e := range x.Edges {
+				if !fresh(e, seen) {
+					return false
+				}
+			}
+			return true
+		}
+		return false
+	}
+	for _, b := range fn.Blocks {
+		if ret, ok := b.Instrs[len(b.Instrs)-1].(*ssa.Return); ok {
+			if len(ret.Results) == 1 && knownNilIn(b, ret.Results[0]) {
+				n++
+				continue
+			}
+			if len(ret.Results) != 1 || !fresh(ret.Results[0], map[ssa.Value]bool{}) {
+				return false
+			}
+			n++
+		}
+	}
+	return n > 0
 }
 
 // isFresh reports whether v is an object allocated in this function (struct literal, new).
